@@ -320,6 +320,14 @@ def rule_root_relative_fs(ctx: Ctx, rule: str) -> None:
                        'argument joined onto the root, or guarded by an absolute-path test', how,
                        witness="glob('*', root_dir='sub') / globmatch('f', '*', REALPATH, root_dir='sub') must look in sub/, not in the cwd")
     ctx.floor(rule, 'file-system call sites', n, 11)
+    # how directories are opened relative to a descriptor: like scandir(path) would -- read-only, as a directory, links followed
+    wm = repo.mod('_wcmatch')
+    dfl = [s for s in wm.tree.body if isinstance(s, ast.Assign) and any(isinstance(t, ast.Name) and t.id == 'DIR_FLAGS' for t in s.targets)]
+    names = sorted({x.attr if isinstance(x, ast.Attribute) else x.value for s in dfl for x in ast.walk(s.value)
+                    if (isinstance(x, ast.Attribute) and x.attr.startswith('O_')) or (isinstance(x, ast.Constant) and isinstance(x.value, str) and x.value.startswith('O_'))})
+    ctx.ob(rule, '_wcmatch:DIR_FLAGS', len(dfl) == 1 and names == ['O_DIRECTORY', 'O_RDONLY'], repo.loc('_wcmatch', dfl[0] if dfl else 1),
+           'os.O_RDONLY | O_DIRECTORY (where available), nothing else', str(names),
+           witness="glob('link/*', dir_fd=fd) must list a symlinked directory exactly as glob('link/*', root_dir=..) does: O_NOFOLLOW would refuse it")
     from . import ginit
     ginit.rule_derived_attrs(ctx, rule, which={'root_dir'})
     pb = repo.func('glob', 'Glob._prepend_base')
